@@ -25,7 +25,7 @@ from ..symx import Ctx
 PROP = 'C34'
 
 GRAMMAR = """
-Model: imports*=Import packages*=Package;
+Model: imports*=Import top*=Class packages*=Package;
 Import: 'import' importURI=STRING;
 Package: 'package' name=ID '{' (packages+=Package | classes+=Class | wrapped+=Wrapper)* '}';
 Class: 'class' name=ID ('uses' uses+=[Class:FQN][','])? ('base' base=[Class:FQN])? ';';
@@ -93,6 +93,23 @@ def case_spaced():
     return {'main': t}
 
 
+def case_offset_zero():
+    """the targets are the very first objects of their files (offset 0)"""
+    lib = Text()
+    lib.add('class lz; package lp { class lc uses ').ref('lz', 'lz').add('; }')
+    main = Text()
+    main.add('import "lib.m"\nclass z;\npackage mp {\n class mc base ').ref('lz', 'lz').add(';\n class md uses ')
+    main.ref('z', 'z').add(',').ref('lz', 'lz').add('; }')
+    return {'main': main, 'lib.m': lib}
+
+
+def case_offset_zero_single():
+    t = Text()
+    t.add('class z; class y base ').ref('z', 'z').add(';\npackage pp { class c uses ').ref('z', 'z').add(', ').ref('y', 'y')
+    t.add('; }')
+    return {'main': t}
+
+
 def case_two_metamodels():
     """the imported file belongs to another registered language (pattern *.m2), i.e. to another metamodel"""
     lib = Text()
@@ -104,7 +121,7 @@ def case_two_metamodels():
     return {'main': main, 'lib.m2': lib}
 
 
-CASES = {'single': case_single, 'two-files': case_two_files, 'same-text': case_same_text, 'spaced-qualified': case_spaced,
+CASES = {'offset-zero': case_offset_zero, 'offset-zero-single': case_offset_zero_single, 'single': case_single, 'two-files': case_two_files, 'same-text': case_same_text, 'spaced-qualified': case_spaced,
          # the model is given as a string (with a file name), lines end in CR LF: positions are offsets into
          # the text the caller handed over
          'single-crlf-string': lambda: case_single('\r\n'),
